@@ -38,6 +38,40 @@ def jstr(bs):
     return "".join(out)
 
 
+# literals the compiler can encode differently: immediates (-128..127), integers just outside, constants, non-numbers
+LITERALS = ["-129", "-128", "-127", "-1", "0", "-0", "1", "5", "126", "127", "128", "255", "100000", "0.5", "-2.5", "1e100",
+            "nil", "true", "false", ":a", ":aa", '"aa"', '""', "'abc", "'(1 2)", "'[1 2]", "'()"]
+
+OPS = [("lt", "<"), ("le", "<="), ("gt", ">"), ("ge", ">="), ("eq", "="), ("ne", "not=")]
+
+
+def literal_fn(lit):
+    """(fn [x] [...]) evaluating every comparison operator against the literal through every compiled shape; the result is
+    a tuple of  :shape/op value  pairs (the harness derives the expected value from the op name and the C API)."""
+    parts = [":lit/lit", lit]
+    for code, op in OPS:
+        parts += [":inline/%s" % code, "(%s x %s)" % (op, lit)]                       # x OP literal  (immediate opcodes when possible)
+        parts += [":inline/r%s" % code, "(%s %s x)" % (op, lit)]                      # literal OP x
+        parts += [":if/%s" % code, "(if (%s x %s) true false)" % (op, lit)]           # as a branch condition
+        parts += [":if/r%s" % code, "(if (%s %s x) true false)" % (op, lit)]
+        parts += [":ifnot/%s" % code, "(if (not (%s x %s)) false true)" % (op, lit)]
+        parts += [":while/%s" % code, "(do (var r false) (while (%s x %s) (set r true) (break)) r)" % (op, lit)]
+        parts += [":and/%s" % code, "(and (%s x %s) true)" % (op, lit)]
+        parts += [":apply/%s" % code, "(apply %s [x %s])" % (op, lit)]                # the function value
+        parts += [":apply/r%s" % code, "(apply %s [%s x])" % (op, lit)]
+        parts += [":letbound/%s" % code, "(let [y %s] (%s x y))" % (lit, op)]          # literal first moved to a register
+        if code not in ("ne",):
+            parts += [":chain/lxl-%s" % code, "(%s %s x %s)" % (op, lit, lit)]        # n-ary chains
+            parts += [":chain/xlx-%s" % code, "(%s x %s x)" % (op, lit)]
+            parts += [":chain/xxl-%s" % code, "(%s x x %s)" % (op, lit)]
+    parts += [":fn/cmp", "(cmp x %s)" % lit, ":fn/rcmp", "(cmp %s x)" % lit, ":fn/compare", "(compare x %s)" % lit]
+    return "(fn [x] [%s])" % " ".join(parts)
+
+
+def literal_prelude():
+    return "(def c03-litfns [%s])" % "\n  ".join(literal_fn(l) for l in LITERALS)
+
+
 class Gen:
     def __init__(self, rng, scale=1):
         self.rng = rng
@@ -292,6 +326,7 @@ class Gen:
         syms = [("sym", b) for b in names]
         consts = [("nil",), ("bool", True), ("bool", False)]
         self.prelude += [
+            literal_prelude(),
             "(def r0 @[])", "(def r1 @[])", "(def r2 @[1 2])", "(def r3 @{})", "(def r4 @{})", "(def r5 @{:a 1})", '(def r6 @"")', '(def r7 @"")',
             '(def r8 @"abc")', "(def r9 (fn [] 1))", "(def r10 (fn [] 1))", "(def r11 (fiber/new (fn [] 1)))", "(def r12 (fiber/new (fn [] 1)))",
             "(def r13 print)", "(def r14 type)", "(def r15 (fn [x] (fn [] x)))", "(def r16 (r15 1))", "(def r17 (r15 1))", '(def r18 @"abc")', "(def r19 @[1 2])"]
